@@ -212,6 +212,12 @@ func (d *DiagDense) DiagFrom(m Matrix) {
 		}
 	case RawTriBander:
 		mat := r.RawTriBand()
+		if mat.Diag == blas.Unit {
+			for i := 0; i < n; i++ {
+				d.setDiag(i, 1)
+			}
+			return
+		}
 		data := mat.Data
 		if mat.Uplo == blas.Lower {
 			data = data[mat.K:]
